@@ -627,6 +627,84 @@ fn kill_case(i: u64, seed: u64, out: &mut CaseOut) {
     }
 }
 
+/// An action that fails for a reason other than a storage fault: an undo whose list contains an
+/// operation that cannot be reversed (an update recorded against a task the same batch had already
+/// deleted — ignored when committed, but logged), preceded in reversal order by operations that can.
+/// Whatever the call reports, unless it reports success the reopened store must be the before-state.
+fn failed_undo_case(i: u64, seed: u64, out: &mut CaseOut) {
+    let replay = json!({"stratum": "failed-undo", "index": i});
+    let dir = TempDir::new("c06fu");
+    let rdir = dir.path().join("replica");
+    std::fs::create_dir_all(&rdir).unwrap();
+    let us = uuids(seed, i);
+    let (x, y, z) = (us[0], us[1], us[2]);
+    let mut rng = Rng::derive(seed, "c06-failed-undo", i);
+    let harness = |e: String, out: &mut CaseOut| out.inconclusive = Some(format!("HARNESS failed-undo prior: {e}"));
+    {
+        let (mut rep, _ctl) = open_observed(&rdir);
+        let prior = concretise(&mut rep, &[AbsOp::Set(x, "description".into(), "X".into(), ts(1)), AbsOp::Set(x, "p".into(), "1".into(), ts(1)), AbsOp::Set(y, "description".into(), "Y".into(), ts(1)), AbsOp::Set(y, "status".into(), "pending".into(), ts(1))]);
+        let prior = match prior {
+            Ok(p) => p,
+            Err(e) => return harness(e, out),
+        };
+        if let Err(e) = block_on(rep.commit_operations(prior)) {
+            return harness(e.to_string(), out);
+        }
+        let old_x = match block_on(rep.get_task_data(x)) {
+            Ok(Some(t)) => t.iter().map(|(k, v)| (k.clone(), v.clone())).collect(),
+            _ => return harness("task x missing".into(), out),
+        };
+        let mut ops = Operations::new();
+        ops.push(Operation::UndoPoint);
+        if rng.chance(1, 2) {
+            ops.push(Operation::Update { uuid: y, property: "q".into(), old_value: None, value: Some("lead".into()), timestamp: ts(2) });
+        }
+        ops.push(Operation::Delete { uuid: x, old_task: old_x });
+        // recorded through a stale handle: x no longer exists at this point of the batch
+        ops.push(Operation::Update { uuid: x, property: "p".into(), old_value: Some("1".into()), value: Some("stale".into()), timestamp: ts(3) });
+        ops.push(Operation::Update { uuid: y, property: "description".into(), old_value: Some("Y".into()), value: Some("Y2".into()), timestamp: ts(4) });
+        if rng.chance(1, 2) {
+            ops.push(Operation::Create { uuid: z });
+            ops.push(Operation::Update { uuid: z, property: "status".into(), old_value: None, value: Some("pending".into()), timestamp: ts(5) });
+        }
+        if let Err(e) = block_on(rep.commit_operations(ops)) {
+            return harness(e.to_string(), out);
+        }
+    }
+    let before = match full_dump(&rdir, &us) {
+        Ok(d) => d,
+        Err(e) => return harness(e, out),
+    };
+    let result = {
+        let (mut rep, _ctl) = open_observed(&rdir);
+        let undo = block_on(rep.get_undo_operations()).unwrap_or_default();
+        block_on(rep.commit_reversed_operations(undo)).map_err(|e| e.to_string())
+    };
+    let after = match full_dump(&rdir, &us) {
+        Ok(d) => d,
+        Err(e) => {
+            out.violate("cannot-reopen", format!("after a failed undo: {e}"), replay);
+            return;
+        }
+    };
+    out.count("failed_undo_cases", 1);
+    match result {
+        Ok(true) => out.count("irreversible_undo_reported_success", 1),
+        other => {
+            if !(dumps_equal(&after.d, &before.d) && after.task_ops == before.task_ops) {
+                out.violate(
+                    "not-atomic/failed-undo/partial-effect",
+                    format!("undo reported {other:?} but the reopened store is not the before-state: tasks {}; unsynced operations {} -> {}", model::diff_tasks(&after.d.tasks, &before.d.tasks), before.d.unsynced.len(), after.d.unsynced.len()),
+                    replay,
+                );
+                return;
+            }
+            out.count("failed_undo_left_no_trace", 1);
+            out.nontrivial = Some(fnv(format!("failed-undo{i}").as_bytes()));
+        }
+    }
+}
+
 pub fn run(ctx: &Ctx) -> Outcome {
     let mut acc = Acc::default();
     let seed = ctx.seed;
@@ -653,6 +731,14 @@ pub fn run(ctx: &Ctx) -> Outcome {
             out
         });
     }
+    if want("failed-undo") {
+        let (lo, hi) = range(ctx.tier.pick(12, 200));
+        run_cases(&mut acc, "failed-undo", hi - lo, |i| {
+            let mut out = CaseOut::new();
+            failed_undo_case(i + lo, seed, &mut out);
+            out
+        });
+    }
     if want("kill") {
         let (lo, hi) = range(ctx.tier.pick(60, 2000));
         run_cases(&mut acc, "kill", hi - lo, |i| {
@@ -666,11 +752,12 @@ pub fn run(ctx: &Ctx) -> Outcome {
         acc.require("in_process_faults", 200, "too few in-process faults");
         acc.require("reopened_after_acked_commit", 10, "too few kills right after a successful commit");
         acc.require("kills", 20, "too few SIGKILL cases");
+        acc.require("failed_undo_cases", 5, "too few undos that fail for a non-storage reason");
         acc.require("reopened_between_transactions", 1, "never observed a stop between the two transactions of sync/undo");
     }
     Outcome {
         level: "fault_enumeration",
-        rule: "sweep: for each of {commit, undo, rebuild(false), rebuild(true), sync} on a prepared SQLite replica, and for the first sync of a brand-new replica from an HTTP server holding a snapshot and later versions (fresh-sync) (pending work, undo points, stale working-set entries, incoming versions on an on-disk local server): every storage call index x {error, dropped future} in-process and x {abort() before the call} in a child process (quick: every commit call and every 4th other call), plus abort() right after every commit returned; reopened store compared with before / after / transaction-boundary dumps. kill: a child commits state-independent batches and ACKs each, SIGKILL at random instants, reopened store compared with the model of the acknowledged commits (+ optionally the one in flight). evaluations = faulted runs; non-trivial = the action changes the store; distinct by (action, case)".into(),
+        rule: "sweep: for each of {commit, undo, rebuild(false), rebuild(true), sync} on a prepared SQLite replica, and for the first sync of a brand-new replica from an HTTP server holding a snapshot and later versions (fresh-sync) (pending work, undo points, stale working-set entries, incoming versions on an on-disk local server): every storage call index x {error, dropped future} in-process and x {abort() before the call} in a child process (quick: every commit call and every 4th other call), plus abort() right after every commit returned; reopened store compared with before / after / transaction-boundary dumps. failed-undo: an undo list containing an operation that cannot be reversed (update of a task deleted earlier in the batch) after ones that can: unless success is reported the reopened store must be the before-state. kill: a child commits state-independent batches and ACKs each, SIGKILL at random instants, reopened store compared with the model of the acknowledged commits (+ optionally the one in flight). evaluations = faulted runs; non-trivial = the action changes the store; distinct by (action, case)".into(),
         exhaustive: None,
         acc,
         assumptions: vec![
